@@ -78,9 +78,9 @@ def scale(self):
 def _context_changes(tree: ast.AST) -> List[ast.AST]:
     out = []
     for n in ast.walk(tree):
-        if isinstance(n, ast.Call) and (dotted(n.func) or "").split(".")[-1] in ("localcontext", "setcontext", "getcontext", "Context"):
+        if isinstance(n, ast.Call) and (dotted(n.func) or "").split(".")[-1] in ("localcontext", "setcontext", "Context"):  # reading getcontext() changes nothing; a store through it is an attribute store below
             out.append(n)
-        if isinstance(n, ast.Attribute) and n.attr in ("prec", "rounding", "Emin", "Emax") and isinstance(n.ctx, ast.Store):
+        if isinstance(n, ast.Attribute) and n.attr in ("prec", "rounding", "Emin", "Emax", "capitals", "clamp", "traps", "flags") and isinstance(n.ctx, ast.Store):
             out.append(n)
     return out
 
@@ -258,68 +258,116 @@ def threeway(repo: Repo, R, rule: str, hf: FuncInfo, nname: Optional[str]):
 def arithmetic_shape(repo: Repo, R):
     rule = "C14.6-arithmetic-shape"
     ci = repo.cls(F_PREFIX, "Prefixed")
-    neg = _single_return(ci.methods["__neg__"])
-    R.check(ast.unparse(neg) == "Prefixed.new(-self.number, self.prefix)", rule, key_of(ci.methods["__neg__"]), ci.methods["__neg__"].site, f"__neg__ = `{ast.unparse(neg)}`", why="negation changes magnitude or prefix")
-    ab = _single_return(ci.methods["__abs__"])
-    R.check(ast.unparse(ab) == "Prefixed.new(abs(self.number), self.prefix)", rule, key_of(ci.methods["__abs__"]), ci.methods["__abs__"].site, f"__abs__ = `{ast.unparse(ab)}`", why="abs changes magnitude or prefix")
     from . import shared
     from .. import fde
 
+    def value_of(e: ast.AST):
+        """(number, prefix) texts of a Prefixed-valued expression over self / lhs / rhs, or None."""
+        if isinstance(e, ast.Name):
+            return (f"{e.id}.number", f"{e.id}.prefix")
+        if isinstance(e, ast.UnaryOp) and isinstance(e.op, ast.USub):
+            v = value_of(e.operand)
+            return None if v is None else (f"-{v[0]}", v[1])
+        if isinstance(e, ast.Call) and ast.unparse(e.func) in ("Prefixed.new", "Prefixed", "cls.new", "cls"):
+            a = {k.arg: k.value for k in e.keywords}
+            pos = list(e.args)
+            num = a.get("number", pos[0] if pos else None)
+            pre = a.get("prefix", pos[1] if len(pos) > 1 else None)
+            if num is not None and pre is not None:
+                return (ast.unparse(num), ast.unparse(pre))
+        if isinstance(e, ast.Call) and isinstance(e.func, ast.Attribute) and e.func.attr == "scale" and len(e.args) + len(e.keywords) == 1:
+            return None
+        return None
+
+    def sign_conds(conds):
+        """exact sign facts about self.number on the path: 'neg', 'nonneg' or None; anything else that is not a
+        comparison of self.number with 0 makes the path unknown ('?')."""
+        fact = None
+        for t, pol in conds:
+            s_ = ast.unparse(t)
+            m = {"self.number < 0": "neg", "0 < self.number": "pos", "self.number.is_signed()": "neg", "self.number == 0": "zero"}.get(s_)
+            if m is None:
+                return "?"
+            if m == "neg":
+                fact = "neg" if pol else "nonneg"
+            elif m == "pos":
+                fact = "nonneg" if pol else ("nonpos" if fact is None else fact)
+            elif m == "zero" and pol:
+                fact = "zero"
+        return fact
+
+    for meth, want_plain in (("__neg__", "-self.number"), ("__abs__", "abs(self.number)")):
+        fi = ci.methods[meth]
+        bad = []
+        n_ret = 0
+        for r in shared.returns_of(fi.node):
+            for val, conds in shared.alternatives(fi.node, r.value, shared.path_conditions(fi.node, r), at=r):
+                n_ret += 1
+                v = value_of(val)
+                if v is None or v[1] != "self.prefix":
+                    bad.append(f"`{ast.unparse(val)}`")
+                    continue
+                num = v[0].replace("self.number.copy_abs()", "abs(self.number)").replace("self.number.copy_negate()", "-self.number")
+                sg = sign_conds(conds)
+                if num == want_plain and sg != "?":
+                    continue
+                if meth == "__abs__" and ((num == "-self.number" and sg in ("neg", "nonpos", "zero")) or (num == "self.number" and sg in ("nonneg", "zero"))):
+                    continue
+                bad.append(f"`{ast.unparse(val)}` under {[('' if p_ else 'not ') + ast.unparse(t) for t, p_ in conds]}")
+        R.check(n_ret > 0 and not bad, rule, key_of(fi), fi.site,
+                f"{meth}: every returned value is the same prefix with the number {'negated' if meth == '__neg__' else 'made non-negative (decided, if at all, by an exact comparison of self.number with 0)'}"
+                + (f"; not so: {bad}" if bad else ""),
+                why=("negation changes magnitude or prefix" if meth == "__neg__" else "abs changes magnitude or prefix, or decides the sign with the tolerant Prefixed comparison: values within the tolerance of zero keep their minus sign"))
+
     for name, op in (("_add", "+"), ("_subtract", "-")):
         f = repo.func(F_PREFIX, name)
-
-        def m_eq(t):
-            return ast.unparse(t) in ("lhs.prefix == rhs.prefix", "rhs.prefix == lhs.prefix", "lhs.prefix.value == rhs.prefix.value", "rhs.prefix.value == lhs.prefix.value")
-
-        def m_lt(t):
-            s_ = ast.unparse(t)
-            if s_ == "lhs.prefix.value < rhs.prefix.value":
-                return True
-            if s_ == "rhs.prefix.value < lhs.prefix.value":
-                return "neg"  # prefixes differ on this path
-            return False
-
-        def norm(v, f=f):
-            return ast.unparse(v)
-
-        body = [st for st in f.node.body if not (isinstance(st, ast.Expr) and isinstance(st.value, ast.Constant))]
-        try:
-            tab = fde.decision_table(body, [("eq", m_eq), ("lt", m_lt)], ["<return>"], norm, tolerant=True)
-        except fde.Unknown as e:
-            raise AnalysisError(f"idiom-unknown: {f.site}: {e}")
-        # resolve locals in the returned expression per valuation: re-run with the environment substituted
-        def result(eq, lt):
-            env = {}
-            out = [None]
-
-            def run(block):
-                for st in block:
-                    if isinstance(st, ast.If):
-                        t = fde._ev_atoms(st.test, {"eq": eq, "lt": lt}, [("eq", m_eq), ("lt", m_lt)])
-                        if run(st.body if t else st.orelse):
-                            return True
-                    elif isinstance(st, ast.Assign) and len(st.targets) == 1 and isinstance(st.targets[0], ast.Name):
-                        env[st.targets[0].id] = au.expand(st.value, env)
-                    elif isinstance(st, ast.Return):
-                        out[0] = ast.unparse(au.expand(st.value, env))
-                        return True
-                return False
-
-            run(body)
-            return out[0]
-
-        same = result(True, False) == f"Prefixed.new(lhs.number {op} rhs.number, lhs.prefix)" or result(True, False) == f"Prefixed.new(lhs.number {op} rhs.number, rhs.prefix)"
-        sm = True
-        diffp = True
-        for lt, small in ((True, "lhs.prefix"), (False, "rhs.prefix")):
-            got = result(False, lt)
-            want = f"Prefixed.new(lhs.scale({small}).number {op} rhs.scale({small}).number, {small})"
-            if got != want:
-                diffp = False
-                sm = sm and got is not None and got.endswith(f", {small})")
-        R.check(same and diffp and sm, rule, key_of(f), f.site,
-                f"{name}: equal prefixes -> numbers combined with `{op}` under that prefix ({same}); otherwise both scaled to the smaller prefix ({sm}) and combined left {op} right ({diffp})",
-                why=f"{'sums' if op == '+' else 'differences'} are computed on unscaled mantissas, in the wrong order, or under the wrong prefix")
+        EQ = ("lhs.prefix == rhs.prefix", "rhs.prefix == lhs.prefix", "lhs.prefix.value == rhs.prefix.value", "rhs.prefix.value == lhs.prefix.value", "lhs.prefix is rhs.prefix", "rhs.prefix is lhs.prefix")
+        bad = []
+        seen = set()
+        for r in shared.returns_of(f.node):
+            for val, conds in shared.alternatives(f.node, r.value, shared.path_conditions(f.node, r), at=r):
+                eq = None
+                lt = None
+                unknown = []
+                for t, pol in conds:
+                    s_ = ast.unparse(t)
+                    if s_ in EQ:
+                        eq = pol
+                    elif s_ == "lhs.prefix.value < rhs.prefix.value":
+                        lt = pol
+                    elif s_ == "rhs.prefix.value < lhs.prefix.value":
+                        lt = (not pol) if eq is False else (False if pol else None)
+                    elif s_ in ("lhs.prefix.value <= rhs.prefix.value",):
+                        lt = pol if eq is False else (None if pol else False)
+                    else:
+                        unknown.append(("" if pol else "not ") + s_)
+                v = value_of(val)
+                got = ast.unparse(val)
+                if unknown:
+                    bad.append(f"`{got}` is returned under a condition other than the order of the two prefixes: {unknown}")
+                    continue
+                if v is None:
+                    bad.append(f"`{got}`")
+                    continue
+                num, pre = v
+                if eq is True:
+                    ok = num == f"lhs.number {op} rhs.number" and pre in ("lhs.prefix", "rhs.prefix")
+                    seen.add("eq")
+                elif lt is None and eq is None and num == f"lhs.scale({pre}).number {op} rhs.scale({pre}).number":
+                    ok = False  # unconditional scaling: to which prefix?
+                else:
+                    small = "lhs.prefix" if lt else "rhs.prefix"
+                    if lt is None:
+                        ok = False
+                    else:
+                        ok = pre == small and num in (f"lhs.scale({small}).number {op} rhs.scale({small}).number", f"lhs.number {op} rhs.scale({small}).number" if lt else f"lhs.scale({small}).number {op} rhs.number")
+                        seen.add("lt" if lt else "gt")
+                if not ok:
+                    bad.append(f"`{got}` under {[('' if p_ else 'not ') + ast.unparse(t) for t, p_ in conds]}")
+        R.check(not bad and {"lt", "gt"} <= seen, rule, key_of(f), f.site,
+                f"{name}: equal prefixes -> numbers combined with `{op}` under that prefix; otherwise both scaled to the smaller prefix and combined left {op} right; cases seen {sorted(seen)}"
+                + (f"; not so: {bad}" if bad else ""),
+                why=f"{'sums' if op == '+' else 'differences'} are computed on unscaled mantissas, in the wrong order, under the wrong prefix, or skipped for some operand pairs")
     sc = ci.methods["scale"]
     ok = any(shared.prov_text(sc.node, r.value) == "Prefixed.new(self.number * Decimal(10) ** (self.prefix.value - prefix.value), prefix)" for r in shared.returns_of(sc.node))
     R.check(ok, rule, key_of(sc), sc.site, f"scale(p): number * 10 ** (own exponent - p's exponent), under p: {ok}", why="rescaling multiplies by the inverse factor: every mixed-prefix sum is off by powers of ten")
